@@ -5,11 +5,13 @@ import (
 	"errors"
 	"fmt"
 	"io"
+	gonet "net"
 	"net/http"
 	"net/http/httptest"
 	"net/url"
 	"os"
 	"path/filepath"
+	"syscall"
 	"time"
 
 	"tkestack.io/kvass/pkg/prom"
@@ -27,6 +29,7 @@ type breakReader struct {
 	pos   int
 	block <-chan struct{} // when set: wait for it instead of failing at once
 	chunk int
+	err   error // the error the read fails with at the cut (default: unexpected EOF)
 }
 
 func (b *breakReader) Read(p []byte) (int, error) {
@@ -34,6 +37,9 @@ func (b *breakReader) Read(p []byte) (int, error) {
 		if b.block != nil {
 			<-b.block
 			return 0, errors.New("context deadline exceeded (scripted)")
+		}
+		if b.err != nil {
+			return 0, b.err
 		}
 		return 0, io.ErrUnexpectedEOF
 	}
@@ -378,6 +384,25 @@ func init() {
 					one(c13Case{Kind: "body-breaks", Gzip: gzipOn, Cut: cut, BodyLen: len(wire), Assigned: assigned}, true, small, func() {
 						serve = func(req *http.Request) rig.Answer {
 							return rig.Answer{Gzip: gzipOn, BodyReader: func() io.ReadCloser { return &breakReader{data: wire, cut: cut, chunk: 64} }}
+						}
+					})
+				}
+			}
+			// the connection is reset by the target in the middle of the body (the error a TCP RST gives), and
+			// other ways a read can fail
+			for _, ek := range []struct {
+				name string
+				err  error
+			}{
+				{"reset-by-peer", &gonet.OpError{Op: "read", Net: "tcp", Err: os.NewSyscallError("read", syscall.ECONNRESET)}},
+				{"broken-pipe", &gonet.OpError{Op: "read", Net: "tcp", Err: os.NewSyscallError("read", syscall.EPIPE)}},
+				{"closed-body", errors.New("http: read on closed response body")},
+			} {
+				for _, cut := range []int{0, 1, len(small) / 2, len(small) - 1} {
+					cut, ek := cut, ek
+					one(c13Case{Kind: "body-read-error:" + ek.name, Cut: cut, BodyLen: len(small), Assigned: assigned}, true, small, func() {
+						serve = func(req *http.Request) rig.Answer {
+							return rig.Answer{BodyReader: func() io.ReadCloser { return &breakReader{data: small, cut: cut, chunk: 64, err: ek.err} }}
 						}
 					})
 				}
